@@ -58,6 +58,12 @@ T = {
  "C19": ("Coq proof (effect language for array aliasing with a verified taint check: a checked program leaves caller memory unchanged and its untainted results are fresh; any sequence of checked calls; obligation decided on the in-place update sites GENERATED from /repo/src: every site targets a provably fresh local, a += left operand, a file handed over for writing, or an individually justified site) + bit-snapshot / shares_memory oracle over every public entry point",
          "check_sound and calls_compose are closed under the global context; the generated-site obligation breaks as soon as a new in-place update on a parameter or unknown target appears anywhere in the package (even one no small input triggers); the oracle calls every public entry point twice with the same input objects (NumPy, Dask arrays, bags), compares input bits, tests memory sharing and overwrites data / initial centroids / prior arrays afterwards.",
          "the provenance analysis in harness/extract_facts.py is conservative and trusted; effect programs model four named mechanisms only.", "DESIGN.md 4/C19"),
+ "C13": ("Coq proof (variances at or above floors after any variance-storing M-step; ML weights positive with 1 <= sum <= 1 + C*eps/T; MAP weights sum to one; k-means empty cluster keeps its centroid; i-vector covariance floor) + degenerate-data oracle after every iteration for every trainer",
+         "Theorems over R; the oracle trains k-means (array and seeded initialisers, NumPy/Dask), k-means-initialised GMM, GMM ML/MAP with all switch settings and a starved component, and i-vector on duplicated rows, constant columns, two distinct points, outliers, equal rows and extreme scales.",
+         "binary64 overflow/finiteness is exhibited, not proved (partial).", "DESIGN.md 4/C13"),
+ "C16": ("Coq proof (explicit threading of the global generator: reseeded initialisation and seeded initialisers ignore the incoming state and any history of fits/draws; statistics, WCCN scatter and grouping invariant under sample, class and label permutations; seeding facts generated from /repo/src) + repeated-fit / permutation oracle",
+         "Theorems + generated structural obligation (create_UVD calls np.random.seed(random_state) before drawing; k_init receives random_state; no other use of the global generator in k-means/GMM/WCCN); the oracle refits with perturbed global RNG states and shuffled histories (bit-identical) and with permuted samples / class ids.",
+         "D12 (seeded string initialisers depend on row order, inside dask_ml) is a known finding.", "DESIGN.md 4/C16"),
 }
 
 NOT_YET = "check not built yet in this round (the proof technique applies; see DESIGN.md section 4)"
